@@ -291,3 +291,35 @@ def post_iadd_value_separate(r):
 
 def raises_iadd_type(r):
     return not isinstance(r.value, str)
+
+
+def operand_text(v):
+    """text of a right operand: str, AnsiStr (its wrapped value) or AnsiString"""
+    if isinstance(v, str):
+        if hasattr(v, '_s'):
+            return v._s._s
+        return v
+    return v._s
+
+
+def operand_view(v, i):
+    if isinstance(v, str):
+        if hasattr(v, '_s'):
+            return view(v._s, i)
+        return []
+    return view(v, i)
+
+
+def post_iadd_text_any(r):
+    return r.self._s == r.old_self._s + operand_text(r.old_value)
+
+
+def iadd_k_range_any(r):
+    return (0, len(r.old_self._s) + len(operand_text(r.old_value)))
+
+
+def post_iadd_view_any(r):
+    n = len(r.old_self._s)
+    if r.k < n:
+        return texts(view(r.self, r.k)) == texts(view(r.old_self, r.k))
+    return texts(view(r.self, r.k)) == texts(operand_view(r.old_value, r.k - n))
